@@ -40,11 +40,15 @@ def _engine_tasks(what, args):
     if what == "C12":
         from . import schedsim as eng
         n = args.runs or (1200 if args.tier == "quick" else 30000)
-        tasks = driver.seeds_for(args.seed, "C12", n)
+        parts = set(os.environ.get("VERIF_C12_PARTS", "random,site,callrace,datascale").split(","))   # debugging aid
+        tasks = driver.seeds_for(args.seed, "C12", n) if "random" in parts else []
         if not args.runs and not getattr(args, "no_sweep", False) and args.what != "digests":
-            if args.tier == "quick":
+            if args.tier == "quick" and "site" in parts:
                 tasks += site_sweep_tasks(eng, args)
-            tasks += call_race_sweep_tasks(eng, args)
+            if "callrace" in parts:
+                tasks += call_race_sweep_tasks(eng, args)
+            if "datascale" in parts:
+                tasks += data_scale_sweep_tasks(eng, args)
         share = float(os.environ.get("VERIF_INSTR_SHARE", "0.3" if args.tier == "thorough" else "0"))
         if share > 0:
             tasks = [{**t, "cfg": {"instr_share": share}} for t in tasks]
@@ -170,11 +174,25 @@ C12_SWEEP_BASES = [
     ("plain", ("extend", "chain_int_last"), ("dump", "RA", "o_ra"), [("load", "Holder", "holder")]),
     # 14: two threads building converters at once, one from a stub with extra parameters
     ("conv", ("get_converter", "M1M2"), ("get_converter", "Outer"), []),
+    # 15-19: scale. The shared retort has served n0 distinct types (prologue), one thread makes an ordinary first request
+    # that re-uses the oldest cache entries while the other adds 150 more types, crossing 256 / 512 / 1024 / 2048 / 4096
+    ("plain", ("load", "M2", "m_ab"), ("bulk", 150, 180), [("load", "M1", "m_ab"), ("bulk", 180, 0)]),
+    ("plain", ("load", "M2", "m_ab"), ("bulk", 150, 440), [("load", "M1", "m_ab"), ("bulk", 440, 0)]),
+    ("plain", ("load", "M2", "m_ab"), ("bulk", 150, 950), [("load", "M1", "m_ab"), ("bulk", 950, 0)]),
+    ("plain", ("dump", "ListM2", "o_lm2"), ("bulk", 150, 1980), [("dump", "M1", "o_m1"), ("bulk", 1980, 0)]),
+    ("plain", ("load", "M2", "m_ab"), ("bulk", 150, 4020), [("load", "M1", "m_ab"), ("bulk", 4020, 0)]),
+    # 20: converter code generated at once from a stub with extra parameters (ctx[i] accesses) and from a plain pair
+    ("conv", ("get_converter", "ImplTags"), ("get_converter", "Outer"), []),
 ]
+C12_SCALE_BASES = {15, 16, 17, 18, 19}
+# in the scale bases only the sites that read or write the shared caches are swept (the bulk thread is long)
+SCALE_SWEEP_FILES = ("_internal/retort/builtin_mediator.py", "_internal/morphing/facade/retort.py",
+                     "_internal/retort/operating_retort.py", "_internal/retort/searching_retort.py")
 
 
 C12_INSTR_SWEEP_BASES = {0, 3, 9}
-C12_QUICK_SITE_SWEEP = [(0, 0), (3, 0), (9, 0), (9, 1), (12, 0), (13, 0)]     # (base index, primary thread)
+C12_QUICK_SITE_SWEEP = [(0, 0), (3, 0), (9, 0), (9, 1), (12, 0), (13, 0),     # (base index, primary thread)
+                        (15, 0), (16, 0), (17, 0), (18, 0), (19, 0), (20, 0), (20, 1)]
 
 
 def _sweep_base(bi):
@@ -193,6 +211,8 @@ def _sweep_base(bi):
             return {"op": "extend", "h": 0, "recipe": o[1]}
         if o[0] == "get_converter":
             return {"op": "get_converter", "h": 0, "conv": o[1]}
+        if o[0] == "bulk":
+            return {"op": "bulk", "h": 0, "n": o[1], "start": o[2]}
         raise ValueError(o)
     if recipe == "conv":
         handle = {"base": "ConversionRetort", "recipe": "plain"}
@@ -209,6 +229,33 @@ C12_CALL_RACE_SWEEP = [
     ("ListInt", "l1", "lTF", "DISABLE"), ("DictStrListInt", "dAl", "dA1", "FIRST"), ("UListIntStr", "l1", "s1", "DISABLE"),
     ("M1", "m_ab", "m_aTb", "ALL"), ("Node", "node4", "node1", "DISABLE"), ("SetInt", "l1", "lTF", "ALL"),
 ]
+
+
+# data scale, swept completely: (type, generator, recipe, n0) - the loader has seen n0 distinct data, the primary thread
+# calls it with the very first datum again and is preempted once at every step, the other thread feeds 150 new data
+C12_DATA_SCALE_SWEEP = [("DateTime", "dt_fmt", "dt_format", 110), ("DateTime", "dt_fmt", "dt_format", 230), ("DateTime", "dt_iso", "plain", 230),
+                        ("Decimal", "dec", "plain", 230), ("UUID", "uuid", "plain", 480), ("str", "str", "plain", 1000)]
+
+
+def data_scale_sweep_tasks(eng, args):
+    from .procpool import fork_call
+    tasks = []
+    for ci, (t, g, rcp, n0) in enumerate(C12_DATA_SCALE_SWEEP):
+        handle = {"base": "Retort", "recipe": rcp, "opts": {"strict_coercion": True, "debug_trail": ["ALL", "DISABLE"][ci % 2]}}
+        gl = {"op": "get_loader", "h": 0, "t": t}
+        base = {"engine": "schedsim", "cluster": "datascale", "handle": handle,
+                "prologue": [gl, {"op": "bulk_call", "c": 0, "gen": g, "n": n0, "start": 0}],
+                "threads": [[gl, {"op": "bulk_call", "c": 0, "gen": g, "n": 1, "start": 0}],
+                            [gl, {"op": "bulk_call", "c": 0, "gen": g, "n": 150, "start": n0}]],
+                "norm_cache": 128}
+        try:
+            solo = fork_call(eng.compute_ref, (eng._solo_desc({**base, "policy": {"kind": "solo"}}, 0),), 120.0, "solo")
+        except Exception:  # noqa: BLE001
+            continue
+        for k in range(1, min(solo["steps"], 200) + 1):
+            tasks.append({"scenario": {**base, "seed": f"datascale:{ci}:{k}",
+                                       "policy": {"kind": "sweep1", "t": 0, "k": k}, "sweep": True}})
+    return tasks
 
 
 def call_race_sweep_tasks(eng, args):
@@ -249,6 +296,8 @@ def site_sweep_tasks(eng, args):
             continue
         ks = set()
         for _site, v in sorted(solo["hot"].items()):
+            if bi in C12_SCALE_BASES and not _site.startswith(SCALE_SWEEP_FILES):
+                continue
             ks.add(v[0])
             ks.add(v[rng.randrange(len(v))])
         for k in sorted(ks):
@@ -270,7 +319,7 @@ def preemption_sweep_tasks(eng, args):
         a, b = C12_SWEEP_BASES[bi][1], C12_SWEEP_BASES[bi][2]
         base0 = _sweep_base(bi)
         for t in (0, 1):
-            if t == 1 and a == b:
+            if t == 1 and (a == b or bi in C12_SCALE_BASES):
                 continue
             base = dict(base0)
             try:
